@@ -37,7 +37,10 @@ def adaptStep (Sk : List (List K)) (lams : List K) (sig2 : K) (nfft nwin : Nat) 
     sumR nwin (fun t => nth (wk.getD f []) t * nth (Sk.getD t []) f) / sumR nwin (fun t => nth (wk.getD f []) t))
   { S := S1, S1 := st.S, wk := wk, i := st.i + 1 }
 
-/-- the adaptive iteration: `while Σ|S-S1|/NFFT > tol and i < 100` (fuel = the code's bound 100) -/
+/-- the CONDITIONAL part of the adaptive iteration: `while Σ|S-S1|/NFFT > tol and i < fuel` (at most `fuel` further
+    passes, each made only while the last change of the estimate exceeds `tol`).  The code's loop
+    `while (i == 0 or Σ|S-S1|/NFFT > tol) and i < 100` is one unconditional `adaptStep` followed by this loop with
+    fuel 99 (see `pmtmWeights`). -/
 def adaptLoop [ReOrd K] (Sk : List (List K)) (lams : List K) (sig2 tol : K) (nfft nwin : Nat) :
     Nat → AdaptState K → AdaptState K
   | 0, st => st
@@ -46,7 +49,11 @@ def adaptLoop [ReOrd K] (Sk : List (List K)) (lams : List K) (sig2 tol : K) (nff
     if reGt d tol then adaptLoop Sk lams sig2 tol nfft nwin fuel (adaptStep Sk lams sig2 nfft nwin st) else st
 
 /-- `pmtm` weights.  unity/eigen: one weight per taper (`nwin × 1`); adapt: `nfft × nwin`.
-    `half` and `tolc` are the constants 1/2 and 0.0005 of the code. -/
+    `half` and `tolc` are the constants 1/2 and 0.0005 of the code.
+    adapt mirrors the repaired loop `while (i == 0 or Σ|S-S1|/NFFT > tol) and i < 100`: the FIRST pass is always made
+    (`S1` is still zero there, so the test would compare the initial estimate itself, not a change, with the
+    tolerance), the remaining at most 99 passes are made while the estimate still moves by more than `tol`.  Hence
+    between 1 and 100 passes, and the returned weights are never the start values (the eigenvalues). -/
 def pmtmWeights [ReOrd K] (method : MtMethod) (x : List K) (lams : List K) (SkAbs2 : List (List K))
     (nfft : Nat) (tolc : K) : List (List K) :=
   let nwin := lams.length
@@ -59,7 +66,7 @@ def pmtmWeights [ReOrd K] (method : MtMethod) (x : List K) (lams : List K) (SkAb
     let S0 := vec nfft (fun f => (nth (SkAbs2.getD 0 []) f + nth (SkAbs2.getD 1 []) f) / ((2 : Nat) : K))
     let st0 : AdaptState K :=
       { S := S0, S1 := vec nfft (fun _ => 0), wk := vec nfft (fun _ => vec nwin (fun t => nth lams t)), i := 0 }
-    (adaptLoop SkAbs2 lams sig2 (tolc * sig2 / (nfft : K)) nfft nwin 100 st0).wk
+    (adaptLoop SkAbs2 lams sig2 (tolc * sig2 / (nfft : K)) nfft nwin 99 (adaptStep SkAbs2 lams sig2 nfft nwin st0)).wk
 
 /-- `MultiTapering.__call__` before folding/scaling: the mean over tapers of `weight · |eigenspectrum|²` -/
 def mtMean (method : MtMethod) (SkAbs2 : List (List K)) (weights : List (List K)) (nfft nwin : Nat) : List K :=
